@@ -377,7 +377,11 @@ func (e *Exec) execAssign(s *ast.AssignStmt, st *State, ctx *Ctx, k func(*State)
 			if found == "" {
 				e.unsupported(s.Pos(), "comma-ok index on non-map")
 			}
-			v = e.conv(v, e.typeOf(r, ctx), e.lhsType(s.Lhs[0], ctx))
+			var elemT types.Type
+			if mt, ok := e.typeOf(r.X, ctx).Underlying().(*types.Map); ok {
+				elemT = mt.Elem()
+			}
+			v = e.conv(v, elemT, e.lhsType(s.Lhs[0], ctx))
 			finish(st, []string{v, found})
 			return
 		case *ast.TypeAssertExpr:
